@@ -225,6 +225,11 @@ def generate(rng, tier):
     cases += legacycases.stream_cases()
     cases += legacycases.patched_scheme_cases(rng, n=24 if tier == "quick" else 120)
     cases += legacycases.transcoded_cases(rng, n=40 if tier == "quick" else 300)
+    # legacy (< 2.3) kd-tree decode paths (integer / float method): streams assembled from the library's own tree
+    # encoders, re-laid-out for every version 1.0 .. 2.2, and their corruptions, against the Lean decoder model
+    # (props/kdlegacy.py); 39 such streams are part of the frozen corpus (legacy/kdlegacy_*.drc, tools/freeze_kdlegacy.py)
+    from . import kdlegacy
+    cases += kdlegacy.cases(rng, tier)
     return cases
 
 
